@@ -146,8 +146,8 @@ func step(st interface{}, in interface{}, out interface{}) []interface{} {
 			}
 		}
 		return one(o.N == n, s)
-	case "expiry", "hold":
-		return one(true, s)
+	case "expiry", "hold", "bad":
+		return one(true, s) // (a record the process must refuse changes nothing)
 	case "resetall":
 		// ForAllRecordsDo with a callback that reads the delta sums and resets them: it visits exactly the held flows
 		for fi := range s.F {
@@ -363,6 +363,16 @@ func linHistory(c *hx.Ctx, k int, r *rand.Rand) {
 		plans = append(plans, p)
 	}
 	if r.IntN(2) == 0 {
+		// a goroutine that feeds records the process must refuse (no addresses): an error path that runs
+		// concurrently with valid ingestion must not disturb it
+		p := plan{client: len(plans)}
+		for j := 0; j < 1+r.IntN(4); j++ {
+			p.ops = append(p.ops, input{Op: "bad", Flow: r.IntN(nflows)})
+		}
+		plans = append(plans, p)
+		c.Add("lin_histories_with_refused_records", 1)
+	}
+	if r.IntN(2) == 0 {
 		// a goroutine that HOLDS the process lock for a while without changing anything (a walk over all records
 		// with a slow read-only callback): queries that overlap it must still answer as of some point in between -
 		// an implementation that serves a cached answer when the lock is busy shows here
@@ -406,6 +416,11 @@ func linHistory(c *hx.Ctx, k int, r *rand.Rand) {
 					rec.do(p.client, in, func() output { return scanExport(ap) })
 				case "resetall":
 					rec.do(p.client, in, func() output { return walkAndReset(ap) })
+				case "bad":
+					rec0 := mkRec(in.Flow, 2, 2000, 1)
+					rec0.Omit = map[string]bool{"sourceIPv4Address": true, "destinationIPv4Address": true, "sourceIPv6Address": true, "destinationIPv6Address": true}
+					msg := agg.Message(rec0)
+					rec.do(p.client, in, func() output { ap.AggregateMsgByFlowKey(msg); return output{} })
 				case "hold":
 					rec.do(p.client, in, func() output {
 						ap.ForAllRecordsDo(func(intermediate.FlowKey, *intermediate.AggregationFlowRecord) error {
@@ -538,6 +553,12 @@ func stressRun(c *hx.Ctx, k int, r *rand.Rand) {
 						return
 					}
 					atomic.AddUint64(&ingested[f], d)
+					if pr.IntN(40) == 0 {
+						// a record without addresses in between: it cannot belong to any of the eight flows and must not disturb them
+						bad := rec
+						bad.Omit = map[string]bool{"sourceIPv4Address": true, "destinationIPv4Address": true, "sourceIPv6Address": true, "destinationIPv6Address": true}
+						ap.AggregateMsgByFlowKey(agg.Message(bad)) // (whether it says so with an error is not C13's business)
+					}
 				}
 			}
 		}(p)
